@@ -252,6 +252,26 @@ pub fn step(st: &mut St, backend: &str, toks: &[&str]) -> String {
             };
             update(h, &pat_bytes(sd, l as usize))
         }
+        // C17: feed `nbytes` bytes (byte i = pat_byte(seed, i mod 2^20)) through the real `update`
+        // in 1 MiB calls
+        ["blake", "stream", slot, nbytes, seed] => {
+            let (Some(n), Some(sd)) = (num(nbytes), num(seed)) else {
+                return "bad-op".into();
+            };
+            let Some(h) = num(slot).and_then(|s| st.hs.get_mut(&s)) else {
+                return "bad-op".into();
+            };
+            let chunk = pat_bytes(sd, 1 << 20);
+            let mut left = n as usize;
+            while left > 0 {
+                let k = left.min(chunk.len());
+                if update(h, &chunk[..k]) != "ok" {
+                    return "panic".into();
+                }
+                left -= k;
+            }
+            "ok".into()
+        }
         ["blake", "clone", a, b] => {
             let (Some(a), Some(b)) = (num(a), num(b)) else {
                 return "bad-op".into();
